@@ -9,7 +9,7 @@
 (* to when it says TRUE) and writes the headers and some silent audio      *)
 (* packets as <<value, bits>> lists.                                       *)
 (***************************************************************************)
-EXTENDS AudioPacket, TLC, Json
+EXTENDS AudioPacket, SetupParse, TLC, Json
 CONSTANTS Family        \* "sizes" | "shapes" | "mutations"
 VARIABLES c, done
 vars == <<c, done>>
@@ -175,6 +175,16 @@ Audio(s) == IF Family = "residue" THEN FullAudio(s, Fls(c)) ELSE IF Len(s.modes)
             THEN << [W |-> 0, f |-> SilentPacket(s, 0, 0, 0)], [W |-> 1, f |-> SilentPacket(s, 1, 0, 1)], [W |-> 1, f |-> SilentPacket(s, 1, 1, 0)], [W |-> 0, f |-> SilentPacket(s, 0, 0, 0)], [W |-> 0, f |-> SilentPacket(s, 0, 0, 0)] >>
             ELSE <<>>
 \* the generator's own sanity: the two well-formed families are well-formed, every mutation of the third is exactly one field away and most are ill-formed
+\* the strict reader inverts the writer: on the wire image of every generated set-up it recovers the record field for field (well-formed families), and
+\* it accepts whatever the validity predicate accepts (every family, mutations included)
+\* (value fields of a book without values are not on the wire: compared after setting them to the reader's defaults)
+NormBook(b) == IF b.maptype = 0 THEN [b EXCEPT !.qmin = 0, !.qdelta = 0, !.qbits = 1, !.qseq = 0, !.quant = <<>>] ELSE b
+Norm(s) == [s EXCEPT !.books = [i \in 1..Len(s.books) |-> NormBook(s.books[i])]]
+IdRec(s) == [ok |-> TRUE, ch |-> s.ch, rate |-> s.rate, e0 |-> s.e0, e1 |-> s.e1]
+ReaderInvertsWriter == LET r == ReadSetup(PackBytes(SetupFields(c.s)), IdRec(c.s)) IN
+                       /\ (Family \in {"sizes", "shapes", "residue"} => r.ok /\ r.s = Norm(c.s))
+                       /\ (SetupOK(c.s) => r.ok /\ r.s = Norm(c.s))
+                       /\ ReadId(PackBytes(IdFields(c.s))).ok = (c.s.ch \in 0..255 /\ c.s.e0 \in 0..15 /\ c.s.e1 \in 0..15 /\ c.s.rate >= 0)
 FamiliesOK == (Family \in {"sizes", "shapes", "residue"} => SetupOK(c.s))
 Export == done => PrintT("CASE " \o ToJson([name |-> c.name, res |-> IF Len(c.s.residues) >= 1 THEN <<c.s.residues[1].type, c.s.residues[1].psize, c.s.residues[1].begin>> ELSE <<>>, ok |-> SetupOK(c.s), idok |-> IdOK(c.s), ch |-> c.s.ch, e0 |-> c.s.e0, e1 |-> c.s.e1, id |-> IdFields(c.s), setup |-> SetupFields(c.s), audio |-> Audio(c.s),
                                               twin |-> IF Family = "residue" THEN [ok |-> SetupOK(Twin(c.s)), setup |-> SetupFields(Twin(c.s)), audio |-> IF SetupOK(Twin(c.s)) THEN TwinAudio(Twin(c.s), Fls(c)) ELSE <<>>] ELSE [ok |-> FALSE, setup |-> <<>>, audio |-> <<>>]]))
